@@ -116,12 +116,22 @@ def ref_cases():
         def regsize(v):
             return (("register", "q", v),), (A.gate("X", A.item("q", 0)),)
 
-        positions = {"direct": direct, "single": single, "slice-start": lo, "slice-stop": hi, "slice-step": st,
+        def rev_start(v):
+            return (R, ("map", "a", "q", v, None if False else 0, -1)), (A.gate("X", A.item("a", 0)),)
+
+        def rev_stop(v):
+            return (R, ("map", "a", "q", size - 1, v, -1)), (A.gate("X", A.item("a", 0)),)
+
+        def under_size(v):
+            # the register is sized by v, a gate uses the last qubit of the nominal size
+            return (("register", "q", v),), (A.gate("X", A.item("q", size - 1)),)
+
+        positions = {"reversed-start": rev_start, "reversed-stop": rev_stop, "size-vs-index": under_size, "direct": direct, "single": single, "slice-start": lo, "slice-stop": hi, "slice-step": st,
                      "chain": chain, "strided": strided, "register-size": regsize}
         for pname, mk in positions.items():
             in_body = pname in ("direct", "chain", "strided")
             for v in nums:
-                lit_ok = isinstance(v, int) and not (pname == "register-size" and v <= 0)
+                lit_ok = isinstance(v, int) and not (pname in ("register-size", "size-vs-index") and v <= 0)
                 # literal
                 if lit_ok:
                     h, s = mk(v)
@@ -130,7 +140,7 @@ def ref_cases():
                 h, s = mk("v")
                 yield ("ref:%s:let" % pname, wrap((("let", "v", v),) + h, s), (), "let", "full")
                 # override of a let whose declared value is harmless
-                safe = 1 if pname in ("slice-stop", "slice-step", "register-size") else 0
+                safe = size if pname == "size-vs-index" else 1 if pname in ("slice-stop", "slice-step", "register-size") else 0
                 yield ("ref:%s:override" % pname, wrap((("let", "v", safe),) + h, s), (("v", v),), "let", "full")
                 if in_body:
                     # macro argument: the reference is written inside a macro body over a parameter
